@@ -116,6 +116,7 @@ impl Op {
 // ---------------------------------------------------------------------------
 thread_local! {
     static LAST_PANIC: RefCell<Option<String>> = const { RefCell::new(None) };
+    static LOCATION_ONLY: std::cell::Cell<u64> = const { std::cell::Cell::new(0) };
     static IN_GUARD: std::cell::Cell<bool> = const { std::cell::Cell::new(false) };
 }
 
@@ -961,7 +962,25 @@ fn same(watch: &Outcome, fresh: &Outcome) -> bool {
                 s.iter().filter(|d| d.starts_with("Multiple definitions of")).cloned().collect()
             };
             let (da, db) = (dups(a), dups(b));
-            if !da.is_empty() || !db.is_empty() { da == db } else { a == b }
+            if !da.is_empty() || !db.is_empty() {
+                return da == db;
+            }
+            if a == b {
+                return true;
+            }
+            // Which of several equivalent places a diagnostic is attached to (e.g. the same
+            // entrypoint declared in two files, the target is missing) also depends on
+            // iteration order / interning order, between two fresh processes as well
+            // (observed: 3 different locations in 12 runs of the CLI). If only locations
+            // differ, the messages decide. Counted in `location_only_differences`.
+            let msgs = |s: &BTreeSet<String>| -> BTreeSet<String> {
+                s.iter().map(|d| d.lines().next().unwrap_or("").to_string()).collect()
+            };
+            if msgs(a) == msgs(b) {
+                LOCATION_ONLY.with(|c| c.set(c.get() + 1));
+                return true;
+            }
+            false
         }
         (a, b) => a == b,
     }
@@ -1262,6 +1281,7 @@ pub fn main(input_path: &str) {
     let mut nontrivial_fps: BTreeSet<u64> = BTreeSet::new();
     let mut samples: Vec<Value> = vec![];
     let mut n_violations = 0u64;
+    let mut shrunk_per_key: BTreeMap<String, u32> = BTreeMap::new();
     for case in &input.cases {
         {
             let mut o = stdout.lock();
@@ -1282,7 +1302,12 @@ pub fn main(input_path: &str) {
             Ok(None) => {}
             Ok(Some(fired)) => {
                 n_violations += 1;
-                let mut budget = if input.shrink { 400 } else { 0 };
+                // full shrinking for the first occurrences of a rule / recognised cause in this
+                // shard, a small budget afterwards (known findings repeat many times)
+                let key = format!("{}/{}", fired.rule, special_cause(case, &fired).unwrap_or_default());
+                let seen = shrunk_per_key.entry(key).or_insert(0u32);
+                *seen += 1;
+                let mut budget = if !input.shrink { 0 } else if *seen <= 2 { 300 } else { 40 };
                 let (small, small_fired) = shrink(&runner, case, &fired, &mut budget);
                 let cause = cause_of(&runner, &small, &small_fired);
                 line["violation"] = json!({
@@ -1340,6 +1365,7 @@ pub fn main(input_path: &str) {
             "failed_recompile_dir_checks": total.failed_recompile_dir_checks,
             "fresh_nondeterministic_skipped": total.fresh_nondeterministic_skipped,
             "fresh_panics": total.fresh_panics,
+            "location_only_differences": LOCATION_ONLY.with(|c| c.get()),
             "nontrivial_fingerprints": nontrivial_fps.iter().map(|x| format!("{x:016x}")).collect::<Vec<_>>(),
             "samples": samples,
         }
@@ -1370,4 +1396,34 @@ fn merge(t: &mut RunStats, s: RunStats) {
     t.failed_recompile_dir_checks += s.failed_recompile_dir_checks;
     t.fresh_nondeterministic_skipped += s.fresh_nondeterministic_skipped;
     t.fresh_panics += s.fresh_panics;
+}
+
+
+// ---------------------------------------------------------------------------
+// `watch_tools batch <project-dir>`: one fresh batch compile (what compile_and_print does),
+// artifacts written to the project's artifact directory; used as the reference of the real leg.
+// ---------------------------------------------------------------------------
+pub fn batch(dir: &str) {
+    install_panic_hook();
+    let dir = PathBuf::from(dir).canonicalize().expect("project dir");
+    std::env::set_current_dir(&dir).unwrap();
+    let cwd: CurrentWorkingDirectory = dir.to_str().unwrap().intern().into();
+    let config_path = dir.join("isograph.config.json");
+    let out = match guarded(|| {
+        let config = create_config(&config_path, cwd);
+        match State::new(config, cwd) {
+            Err(e) => json!({"kind": "error", "init": true, "text": e.to_string()}),
+            Ok(mut st) => match compile::<Profile>(&mut st) {
+                Ok(stats) => json!({"kind": "ok", "written": stats.total_artifacts_written}),
+                Err(diags) => json!({
+                    "kind": "error",
+                    "text": diags.iter().map(|d| d.printable(st.db.print_location_fn(false)).to_string()).collect::<Vec<_>>().join("\n\n"),
+                }),
+            },
+        }
+    }) {
+        Ok(v) => v,
+        Err(p) => json!({"kind": "crash", "text": p}),
+    };
+    println!("{out}");
 }
